@@ -311,6 +311,44 @@ def schema_rejects(dts, s):
     return all(atom_accepts(at, s) is False for dt in dts for at in dt)
 
 
+def one_element_package(e, a, v):
+    """a text document package whose body holds the single element <e a="v"/> (written by hand, read by load())"""
+    OFF = u'urn:oasis:names:tc:opendocument:xmlns:office:1.0'
+    nsmap = {}
+    for ns in (e[0], a[0]):
+        if ns not in nsmap:
+            nsmap[ns] = 'xml' if ns == XMLNS_URI else 'n%d' % len(nsmap)
+    decls = u' '.join(u'xmlns:%s="%s"' % (p, ns) for ns, p in sorted(nsmap.items(), key=lambda x: x[1]) if p != 'xml')
+    content = (u'<?xml version="1.0" encoding="UTF-8"?>\n<o:document-content xmlns:o="%s" %s o:version="1.2"><o:body><o:text>'
+               u'<%s:%s %s:%s="%s"/></o:text></o:body></o:document-content>'
+               % (OFF, decls, nsmap[e[0]], e[1], nsmap[a[0]], a[1], xml_attr(v)))
+    zbuf = io.BytesIO()
+    with zipfile.ZipFile(zbuf, 'w') as z:
+        z.writestr('mimetype', 'application/vnd.oasis.opendocument.text')
+        z.writestr('content.xml', content.encode('utf-8'))
+        z.writestr('META-INF/manifest.xml',
+                   '<?xml version="1.0" encoding="UTF-8"?>\n<manifest:manifest xmlns:manifest="urn:oasis:names:tc:opendocument:xmlns:manifest:1.0">'
+                   '<manifest:file-entry manifest:media-type="application/vnd.oasis.opendocument.text" manifest:full-path="/"/>'
+                   '<manifest:file-entry manifest:media-type="text/xml" manifest:full-path="content.xml"/></manifest:manifest>')
+    zbuf.seek(0)
+    return zbuf
+
+
+def load_one(load, e, a, v):
+    """what load() makes of <e a="v"/>: 'ok <stored>' / 'err ValueError' / 'err Other' (same vocabulary as set_get)"""
+    try:
+        doc = load(one_element_package(e, a, v))
+    except ValueError:
+        return 'err ValueError'
+    except Exception:
+        return 'err Other'
+    kids = [n for n in doc.text.childNodes if n.nodeType == 1]
+    if len(kids) != 1 or kids[0].qname != e:
+        return 'err Other'
+    got = kids[0].getAttrNS(a[0], a[1])
+    return ('ok ' + enc_str(got)) if isinstance(got, str) else 'err Other'
+
+
 # ---------------------------------------------------------------------- near misses
 def near_misses(kind, valid, members=None):
     """strings that are *not* in the type, derived from valid values (the caller filters with the type authority)"""
@@ -322,9 +360,15 @@ def near_misses(kind, valid, members=None):
     for v in valid[:4]:
         out += [v + u'junk', v + u'\n', v + u' ', u' ' + v, u'+' + v.lstrip(u'-'), v + v]
     if kind in ('length', 'percent'):
+        # a full value of the type followed by something: the sign or unit of the sibling type, a second value, the unit's
+        # last letter once more, a separator - what a pattern anchored on one alternative only, or not at all, lets through
+        for v in valid[:4]:
+            out += [v + u'%', v + u'cm', v + u' ' + v, v + v[-1], v + u';', v + u'\t', v + u'\r', v + u'\u00a0', v + u',']
         out += [u'1e3cm', u'1e3%', u'12em', u'12.5ex', u'12', u'12 cm', u'12CM', u'cm', u'%', u'.cm', u'-.%', u'1.2.3cm', u'1,5cm',
                 u'12cm;', u'0x10pt', u'١٢cm']
     if kind == 'points':
+        for v in valid[:3]:
+            out += [v + u',', v + u' ' + v + u',5', v + u';', v + u'\t' + v]
         out += [u'1.5,2.5 3,4', u'1,2 3', u'1,2,3', u'1,2;3,4', u'1 2', u'1,2\t3,4', u',', u'1,', u'1,2 ']
     if kind == 'viewbox':
         out += [u'0 0 10', u'0 0 10.5 10', u'0,0,10,10', u'0 0 10 10 10', u'0 0 10 1e1', u'a b c d', u'0 0 10 10junk', u'--1 0 10 10',
@@ -340,7 +384,9 @@ def run(chk, replay=None):
     chk.rule = ('every (element, attribute) pair of the schema x values drawn from the attribute\'s schema datatype (every '
                 'enumeration member, min/max/random members of every pattern facet, fixed samples of every XSD built-in type); '
                 'near-misses (suffix junk, trailing LF, blank, sign, exponent, wrong unit, empty, case) for every pair bound to a '
-                'validated converter; non-trivial = the bound converter is not identity-shaped, or the value is a near-miss')
+                'validated converter (a full value followed by the sibling type\'s unit or sign, a second value, a separator), through setAttrNS and, '
+                'for a sample, through load() of a one-element package; str subclass instances through setAttrNS and the constructor; '
+                'non-trivial = the bound converter is not identity-shaped, or the value is a near-miss')
 
     def set_get(el, attr, v):
         e = Element(qname=el, check_grammar=False)
@@ -352,6 +398,20 @@ def run(chk, replay=None):
             return None, 'err Other'
         got = e.getAttrNS(attr[0], attr[1])
         return e, ('ok ' + enc_str(got)) if isinstance(got, str) else 'err Other'
+
+    def make_write(el, attr, v):
+        """the value given to the CONSTRUCTOR (qattributes=), then what the element writes for it, read back with expat"""
+        try:
+            e = Element(qname=el, qattributes={attr: v}, check_grammar=False)
+            buf = io.StringIO()
+            e.toXml(0, buf)
+            d = parse_attrs((u'<r>%s</r>' % buf.getvalue()).encode('utf-8'))
+        except ValueError:
+            return 'err ValueError'
+        except Exception as ex:
+            return 'err Other'
+        got = d[0].get(attr) if len(d) == 1 else None
+        return ('ok ' + enc_str(got)) if isinstance(got, str) else 'err Other'
 
     # common.Check keeps at most 50 failing inputs: report the first input of every signature, count the rest
     real_fail, seen_sig = chk.fail, set()
@@ -372,6 +432,13 @@ def run(chk, replay=None):
                 print('replay: <%s> %s=%r -> %s' % (el[1], attr[1], dec_str(v), res))
             print('replay: a fresh process gives %s for the last call' % inp['fresh'])
             return 0 if res == inp['fresh'] else 1
+        if inp.get('python') == 'str subclass' and inp.get('entry') == 'constructor':
+            class Text(str):
+                pass
+            el, attr, v = tuple(inp['element']), tuple(inp['attribute']), dec_str(inp['value'])
+            r1, r2 = make_write(el, attr, Text(v)), make_write(el, attr, v)
+            print('replay: Element(<%s>, qattributes={%s: %r}) as a str subclass -> %s, as a str -> %s' % (el[1], attr[1], v, r1, r2))
+            return 0 if r1 == r2 else 1
         if inp.get('python') == 'str subclass':
             class Text(str):
                 pass
@@ -389,6 +456,11 @@ def run(chk, replay=None):
             if isinstance(given, bool):
                 return 0 if stored == ('true' if given else 'false') else 1
             return 0 if stored == str(given) else 1
+        if inp.get('via') == 'load':
+            el, attr, v = tuple(inp['element']), tuple(inp['attribute']), dec_str(inp['value'])
+            res = load_one(load, el, attr, v)
+            print('replay: load() of <%s %s=%r/> -> %s (expected %s)' % (el[1], attr[1], v, res, inp['expect']))
+            return 0 if res == 'err ValueError' else 1
         el, attr, v = tuple(inp['element']), tuple(inp['attribute']), dec_str(inp['value'])
         e, res = set_get(el, attr, v)
         print('replay: <%s> %s=%r -> %s (expected %s)' % (el[1], attr[1], v, res if e is None else repr(dec_str(res[3:])), inp['expect']))
@@ -630,6 +702,29 @@ def run(chk, replay=None):
                 chk.fail('loaded-changed:%s' % cnvname, {'element': list(e), 'attribute': list(a), 'value': enc_str(v), 'expect': 'keep'},
                          'after load() the value is %r' % (got,))
 
+    # ------------------------------------------------------------ near-misses arriving from a file
+    # the first near-misses of every validated converter and a seeded sample of the rest, one package each: a value that
+    # setAttrNS must refuse must be refused when load() meets it (the conversion is the same wherever the string comes from)
+    rejects = [c for c in cases if c[3] == 'reject' and xml_ok(c[2])]
+    per_cnv, chosen = {}, []
+    for c in rejects:
+        per_cnv[c[5]] = per_cnv.get(c[5], 0) + 1
+        if per_cnv[c[5]] <= (60 if thorough else 12):
+            chosen.append(c)
+    rest = rejects
+    chosen += [rest[i] for i in sorted(chk.rng.sample(range(len(rest)), min(len(rest), 1500 if thorough else 60)))]
+    seen_l = set()
+    for e, a, v, expect, dt, cnvname in chosen:
+        if (e, a, v) in seen_l:
+            continue
+        seen_l.add((e, a, v))
+        res = load_one(load, e, a, v)
+        chk.count('near_miss_loaded'); chk.case((e, a, v, 'load'), nontrivial=True)
+        if res != 'err ValueError':
+            chk.fail('near-miss-accepted-on-load:%s' % cnvname,
+                     {'element': list(e), 'attribute': list(a), 'value': enc_str(v), 'expect': 'reject', 'via': 'load'},
+                     'load() of <%s %s=%r/> (not a value of the validated type of %s) gave %s instead of ValueError' % (e[1], a[1], v, cnvname, res))
+
     # ------------------------------------------------------------ phase C: the same questions again, after that history
     again = [(c, ans) for c, ans in zip(cases, answers) if c[3] == 'reject']
     keeps = [(c, ans) for c, ans in zip(cases, answers) if c[3] != 'reject']
@@ -785,6 +880,18 @@ def run(chk, replay=None):
         if res != plain:
             chk.fail('typed-arg:str-subclass:%s' % cnvname, {'element': list(e), 'attribute': list(a), 'value': enc_str(v), 'python': 'str subclass'},
                      '<%s> %s=%r given as an instance of a str subclass gave %s, as a str %s' % (e[1], a[1], v, res, plain))
+
+    # ... also when it is handed to the constructor, and in what is written then (for the cases the plain str is kept unchanged)
+    for (e, a, v, expect, dt, cnvname), ans in [ca for i, ca in enumerate(zip(cases, answers)) if i % (7 if thorough else 21) == 3]:
+        if not xml_ok(v):
+            continue
+        plain = make_write(e, a, v)
+        res = make_write(e, a, Text(v))
+        chk.count('typed_str_subclass_constructor')
+        if res != plain:
+            chk.fail('typed-arg:str-subclass:%s' % cnvname,
+                     {'element': list(e), 'attribute': list(a), 'value': enc_str(v), 'python': 'str subclass', 'entry': 'constructor'},
+                     'Element(<%s>, qattributes={%s: %r}) with an instance of a str subclass is written as %s, with a str as %s' % (e[1], a[1], v, res, plain))
 
     # ------------------------------------------------------------ search when a proof or the correspondence broke
     def deep():
